@@ -19,23 +19,29 @@ PROP = dict(
     level='proof',
     regen=['consts', 'profilearith'],
     extra=_extra,
-    theorems=['Fit.C05.C05_pull_refines', 'Fit.C05.C05_pull_in_order', 'Fit.C05.C05_store_of_value', 'Fit.C05.C05_accumulate_total', 'Fit.C05.C05_rows_in_range', 'Fit.C05.C05_profile_depth',
-              'Fit.C05.C05_value_exact', 'Fit.C05.C05_value_within_one', 'Fit.C05.C05_expansion_off', 'Fit.C05.C05_untouched', 'Fit.C05.C05_on_minus_expanded', 'Fit.C05.C05_F07_witness_fixed'],
+    theorems=['Fit.C05.C05_pull_refines', 'Fit.C05.C05_pull_in_order', 'Fit.C05.C05_store_of_value', 'Fit.C05.C05_running_total',
+              'Fit.C05.C05_rows_in_range', 'Fit.C05.C05_rows_cover', 'Fit.C05.C05_profile_depth', 'Fit.C05.C05_profile_table', 'Fit.C05.C05_seed_exact',
+              'Fit.C05.C05_value_exact', 'Fit.C05.C05_value_within_one', 'Fit.C05.C05_dest_representable', 'Fit.C05.C05_dest_types', 'Fit.C05.C05_expansion_values',
+              'Fit.C05.C05_expansion_fields_partial', 'Fit.C05.C05_expansion_property_partial', 'Fit.C05.C05_KF2_witness',
+              'Fit.C05.C05_expansion_off', 'Fit.C05.C05_untouched', 'Fit.C05.C05_on_minus_expanded', 'Fit.C05.C05_F07_witness_fixed'],
     families=[dict(name='bits'), dict(name='accum'), dict(name='expand', spec=True, prop=True, shrink=False)],
     trusted_base=STD_TRUST + [
         "binary64 model (FitModel/F64.lean) tied to the hardware by the family f64 of C12",
         "Generated/ProfileArith.lean: fields, components, sub-fields and their maps of every message that owns components, printed on every run from the compiled factory",
         "the value reader of the decoder (bytes -> proto.Value) is outside this model: the family emits only wire messages that the real decoder (expansion off) reads back unchanged, and the model starts from those values",
         "decoder/bits.go is driven through the hook decoder/verif_export.go (VerifBits: makeBits, Pull, Store, SetStore); decoder.Accumulator is exported",
+        "shared between the specification (FitModel/ExpandSpec.lean) and the model of the code on purpose: convertU32 (the cast of the uint32 result to the destination's base type), valueAppend, toInt64? (sub-field reference values), Value.valid (C06)",
     ],
     assumptions=[
-        "component recursion depth of the profile is below the model's fuel (8); checked against the regenerated profile",
-        "float->integer conversions that the Go specification leaves to the platform (negative or out-of-range float containers, uint32(x) of a value beyond 2^32) follow amd64 in the model and are outside the theorems",
+        "component recursion depth of the profile (3, C05_profile_depth) is below the fuel of model and specification (8)",
+        "float->integer conversions that the Go specification leaves to the platform (negative or out-of-range float containers, uint32(x) of a value beyond 2^32 - 1) follow amd64 in the model and are outside the theorems; so are accumulated totals beyond 2^32 - 1 (the decoder's uint32 wraps)",
+        "the specification is undetermined (no demand, oracle n/a) for: signed/float containers (none in the profile), a wire value of an accumulated destination that is not a whole number of the component's units (record.distance not a multiple of 0.25 m), a field of an accumulated destination not carrying the profile's accumulate flag",
+        "for an array wire value of an accumulated destination the LAST element is the latest total (what Collect keeps)",
     ],
 )
 
 TEXT = dict(
-    technique='Lean 4 proof: models of decoder/bits.go (32x64-bit store, Pull), decoder/accumulator.go and expandComponents/decodeFields tail (recursion, sub-field substitution, destination look-up, array append) over the regenerated profile; specification = exact rational physical value + bit slices of the containing value as one natural number; differential tie through the real decoder on crafted streams (every raw value of every 8/16-bit container, histories with wrapping counters, expansion on/off)',
-    text='C05: expanded fields carry the physical value of their source bits; bit slices in order; accumulation = running total of a wrapping counter; expansion off / untouched wire fields.',
-    note='Trusted: Lean kernel; profile translator; line protocol; binary64 model tied by differential testing.',
+    technique='Lean 4 proof: (1) a SPECIFICATION of the expansion of whole messages and histories (FitModel/ExpandSpec.lean: slices of the containing value as one natural number at the running bit offset, running totals per (message, destination) seeded by exactly converted wire values and advanced by the wrapping-counter delta, destination look-up in the regenerated profile, replace-or-append, depth-first recursion through destination components and sub-fields) written without the decoder\'s bit store, accumulator table and loops; (2) models of decoder/bits.go (32x64-bit store, Pull), decoder/accumulator.go and expandComponents / the tail of decodeFields; (3) a refinement proof that (2) computes exactly (1) for every history of messages and every arithmetic, by induction over fuel, component lists, wire positions and messages (bit store vs Nat slices, accumulator table vs running totals); (4) binary64 error analysis of the component arithmetic for every profile row and every value < 2^32 against the exact rational physical value; differential tie through the real decoder on crafted streams (every raw value of every 8/16-bit container, histories with wrapping counters, wire destinations mixed with every accumulating component, chained sequences, expansion on/off), with the specification as independent oracle',
+    text='C05: for every sequence of messages outside the class of KF-C05-2 (a wire field that is the destination of an accumulating component counting in another unit: record.distance next to compressed_speed_distance), wherever the specification determines it, the model of the decoder\'s expansion returns exactly the specification\'s messages (C05_expansion_fields_partial): component k = bits [sum of earlier widths, +bits_k) of the little-endian container, first zero slice of a multi-component container stops it, accumulating components carry the running total of a wrapping counter of their width over the messages of the sequence (seeded by a wire value of the destination, C05_seed_exact / C05_running_total), value = convertU32(componentValue ...), replace-or-append at the last field with the destination number, recursion through destination components and sub-fields; the arithmetic is exact wherever the physical value is an integer in the uint32 range and within one unit otherwise, for every profile row and every slice or total < 2^32 (C05_expansion_values); expansion off = the wire messages; on = off plus flagged fields, and a wire field changes only if it is the destination of a component PRESENT in the message (C05_untouched). OPEN finding KF-C05-2: the decoder seeds the accumulator with record.distance in 1/100 m and adds 1/16 m deltas to it (641000 instead of 103400): C05_KF2_witness; the suite pins the unconverted Collect (TestDecodeFields), so it is not repaired.',
+    note='Trusted: Lean kernel; profile translator; line protocol; binary64 model tied by differential testing. Partial: C05_expansion_fields_partial / C05_expansion_property_partial exclude the class of KF-C05-2 (seedsOtherUnit).',
 )
